@@ -96,6 +96,7 @@ async fn run_case(ops: Vec<String>) -> String {
             "hookn" => { world.lock().unwrap().newhook = Some(f[1].to_string()); continue; }
             "failw" => { let mut w = world.lock().unwrap(); w.fail_watch.insert(f[1].to_string()); w.shape.remove(f[1]); if f.len() > 2 { w.shape.insert(f[1].to_string(), f[2].to_string()); } continue; }
             "okw" => { world.lock().unwrap().fail_watch.remove(f[1]); continue; }
+            "oku" => { world.lock().unwrap().fail_unwatch.remove(f[1]); continue; }
             "failu" => { let mut w = world.lock().unwrap(); w.fail_unwatch.insert(f[1].to_string()); if f.len() > 2 { w.shape.insert(f[1].to_string(), f[2].to_string()); } continue; }
             _ => return "bad-op".into(),
         }
